@@ -106,6 +106,13 @@ var NegSnippets = []NegSnippet{
 	neg("mismatch", "filter", "deriveFilterNeg", "", "func negUse(f func(int) int, l []int) { _ = deriveFilterNeg(f, l) }"),
 	neg("mismatch", "compose", "deriveComposeNeg", "", "func negUse(f func(int) (string, error), g func(int) (int, error)) { _ = deriveComposeNeg(f, g) }"),
 	neg("mismatch", "compose", "deriveComposeNeg", "", "func negUse(f func(int) string, g func(string) (int, error)) { _ = deriveComposeNeg(f, g) }"),
+	// the number of results of one stage and of parameters of the next differ, at every position and around error-only stages
+	neg("mismatch", "compose", "deriveComposeNeg", "", "func negUse(f func(int) error, g func(string) (int, error)) { _ = deriveComposeNeg(f, g) }"),
+	neg("mismatch", "compose", "deriveComposeNeg", "", "func negUse(f func(int) (string, error), g func() error, h func(int) (int, error)) { _ = deriveComposeNeg(f, g, h) }"),
+	neg("mismatch", "compose", "deriveComposeNeg", "", "func negUse(f func(int) (string, int, error), g func(string) (int, error)) { _ = deriveComposeNeg(f, g) }"),
+	neg("mismatch", "compose", "deriveComposeNeg", "", "func negUse(f func() (string, error), g func(string) (int, error), h func(int, int) (bool, error)) { _ = deriveComposeNeg(f, g, h) }"),
+	neg("mismatch", "compose", "deriveComposeNeg", "", "func negUse(f func() (string, error), g func(string) error, h func(bool) error) { _ = deriveComposeNeg(f, g, h) }"),
+	neg("mismatch", "compose", "deriveComposeNeg", "", "func negUse(f func() (string, error), g func(string) (int, error), h func(string) (bool, error)) { _ = deriveComposeNeg(f, g, h) }"),
 	neg("mismatch", "traverse", "deriveTraverseNeg", "", "func negUse(f func(int) int, l []int) { _, _ = deriveTraverseNeg(f, l) }"),
 	neg("mismatch", "toerror", "deriveToErrorNeg", "", "func negUse(err error, f func(int) int) { _ = deriveToErrorNeg(err, f) }"),
 	neg("mismatch", "apply", "deriveApplyNeg", "", "func negUse(f func(a int, b string) int) { _ = deriveApplyNeg(f, 5) }"),
